@@ -191,6 +191,18 @@ func (g *valGen) fillValue(v reflect.Value) {
 				g.fillValue(e)
 				m.SetMapIndex(k, e)
 			}
+			if t.Name() == "RevocationList" && t.Elem().Kind() == reflect.Int64 && g.rng.Intn(2) == 0 {
+				// a revoke-all entry next to per-key entries on both sides of it (content a decoder must not "tidy up")
+				all := reflect.New(t.Key()).Elem()
+				all.SetString("*")
+				at := int64(1000 + g.rng.Intn(1000))
+				m.SetMapIndex(all, reflect.ValueOf(at).Convert(t.Elem()))
+				for i, d := range []int64{-5, 0, 7} {
+					k := reflect.New(t.Key()).Elem()
+					k.SetString(fmt.Sprintf("UCOVERED%d", i))
+					m.SetMapIndex(k, reflect.ValueOf(at+d).Convert(t.Elem()))
+				}
+			}
 			v.Set(m)
 		}
 	case reflect.Ptr:
